@@ -121,8 +121,8 @@ def body_marks(view, f, published_only=True):
     marks = {}
     counters = counter_locals(view, f)
     n_tw = 0
-    shrink_body = any(e["kind"] == "tw" and e.get("how") in ("call:swap_remove", "call:pop", "call:remove") for e in fx.events(f))
-    for ev in fx.events(f):
+    shrink_body = any(e["kind"] == "tw" and e.get("how") in ("call:swap_remove", "call:pop", "call:remove") for e in fx.events_inl(f))
+    for ev in fx.events_inl(f):
         k = ev["kind"]
         bb = ev["bb"]
         tag = None
@@ -177,7 +177,7 @@ def body_marks(view, f, published_only=True):
         if "ci" in ev:
             ci = ev["ci"]
             m = ci.mruc
-            if not m and ci.local_callee and "MRUC" in fx.effects.get(ci.local_callee, ()):
+            if not m and ci.local_callee and "MRUC" in fx.effects.get(ci.local_callee, ()) and not ev.get("inlined"):
                 m = True
             if not m:
                 for c in ci.closures:
@@ -270,7 +270,7 @@ def make_step(view, f, published):
 
 def published_store(view, f):
     """does f write tables of a store reachable through a `&mut` parameter (published) ?"""
-    for ev in view.fx.events(f):
+    for ev in view.fx.events_inl(f):
         if ev["kind"] in ("tw", "mw") and ev.get("root") is not None:
             r = strip(ev["root"])
             if r[0] == "field" and r[2] == "store":
@@ -285,7 +285,7 @@ def published_store(view, f):
 def retain_pattern_ok(view, f):
     """Store::retain_mut: after retain2, `if map.len() != size { size = map.len(); heap = identity; qp = identity }`"""
     vp = view.vp
-    evs = view.fx.events(f)
+    evs = view.fx.events_inl(f)
     ret = [e for e in evs if e["kind"] == "mw" and e.get("mclass") == "retain"]
     if not ret:
         return None
@@ -303,8 +303,10 @@ def retain_pattern_ok(view, f):
         names = [x[1].split("::")[-1] for x in walk(v) if x[0] == "call"]
         has_ctor = any(x[0] == "fnconst" and x[1].endswith("::" + ctor) for x in walk(v))
         rng = [x for x in walk(v) if x[0] == "adt" and x[1].endswith("Range") and len(x[3]) == 2]
-        ok = "collect" in names and "map" in names and has_ctor and rng and const_int(strip(rng[0][3][0])) == 0 and (
-            component(rng[0][3][1]) and component(rng[0][3][1])[0] == "size")
+        end = strip(rng[0][3][1]) if rng else None
+        end_ok = end is not None and ((component(end) and component(end)[0] == "size") or (
+            end[0] == "call" and end[1].endswith("::len") and end[2] and component(end[2][0]) and component(end[2][0])[0] == "map"))
+        ok = "collect" in names and "map" in names and has_ctor and rng and const_int(strip(rng[0][3][0])) == 0 and end_ok
         if not ok:
             return False, "%s must be re-created as the identity table (0..size).map(%s).collect() (found %s)" % (c, ctor, term_str(v)[:90])
     # the guard: re-creation may be skipped only when map.len() == size
@@ -336,7 +338,7 @@ def absent_key_guard(view, f, ev):
         return True, "VacantEntry::%s (the variant is the key-absent fact)" % ev["name"]
     vp = view.vp
     ci = ev["ci"]
-    args = view.fx.args_vp(ci)
+    args = ev.get("args_sub") or view.fx.args_vp(ci)
     key = strip(args[1]) if len(args) > 1 else None
     # dominated by the false edge of contains_key(map, &key) on the same key
     for bi in sorted(f.cfg.reach):
@@ -376,9 +378,11 @@ def r_tables(ctx, view, want=("R-GROW", "R-TORN"), only=None):
     n_bodies = 0
     n_mruc_sites = 0
     for f in sorted(prog.fns.values(), key=lambda x: x.key):
-        evs = fx.events(f)
+        evs = fx.events_inl(f)
         if not any(e["kind"] in ("tw",) or (e["kind"] == "mw" and e.get("mclass") in ("grow", "shrink", "clear", "retain")) for e in evs):
             continue
+        if not f.is_closure and fx.inlined_everywhere(f.key):
+            continue   # a new private helper: analysed as part of each of its callers
         if only and not only(f):
             continue
         n_bodies += 1
@@ -411,9 +415,25 @@ def r_tables(ctx, view, want=("R-GROW", "R-TORN"), only=None):
                     g1_obs.append((e, True, "its Option result is inspected; tables grow only on the key-absent edge", present_edge))
                 else:
                     g1_obs.append((e, r[0], r[1], None))
+        # a keyed removal handled in the same body (`let (i, k, v) = map.swap_remove_full(key)?;` / match): on the edge
+        # where the Option is None nothing was removed
+        miss_edges = set()
+        from .core import edge_presence
+        for e in evs:
+            if e["kind"] == "mw" and e.get("mclass") == "shrink" and not continuation_completes(view, f, e):
+                site = view.vp.call_term(f, e["bb"], e["ci"].t)
+                for bi in sorted(f.cfg.reach):
+                    tt = f.term(bi)
+                    if tt["k"] != "switch":
+                        continue
+                    dd = strip(view.vp.operand(f, tt["discr"]))
+                    if dd[0] == "discr" and contains(dd, site):
+                        for nb in f.cfg.succ[bi]:
+                            if edge_presence(dd, tt, nb) == "absent":
+                                miss_edges.add((bi, nb))
         # the retain pattern is checked structurally; the automaton then treats the re-creation as closing it
         rp = retain_pattern_ok(view, f)
-        bad_ret = explore_tca(view, f, marks, init, step, g1_obs, rp)
+        bad_ret = explore_tca(view, f, marks, init, step, g1_obs, rp, miss_edges)
         torn = [b for b in bad_ret if b[0] == "torn"]
         grow = [b for b in bad_ret if b[0] == "return"]
         if "R-TORN" in want:
@@ -436,7 +456,7 @@ def r_tables(ctx, view, want=("R-GROW", "R-TORN"), only=None):
         swap_shape(ctx, view, want)
 
 
-def explore_tca(view, f, marks, init, step, g1_obs, rp):
+def explore_tca(view, f, marks, init, step, g1_obs, rp, miss_edges=()):
     """returns list of ('torn'|'return', description, path)"""
     out = []
     controls = [(e, edge) for (e, ok, why, edge) in g1_obs if edge is not None]
@@ -502,6 +522,11 @@ def explore_tca(view, f, marks, init, step, g1_obs, rp):
                     # counts were normalised: the other three are one ahead -> undo by bumping none
                     pass
                 st_n = (norm4(tuple(g)),) + st[1:]
+            if (bb, nb) in miss_edges:
+                sh = list(st_n[1])
+                if sh[0] > 0:
+                    sh[0] -= 1
+                st_n = (st_n[0], norm4(tuple(sh))) + st_n[2:]
             dq.append((nb, env, st_n, path + (nb,) if len(path) < 60 else path))
     return out
 
